@@ -140,9 +140,65 @@ package providers
 
 // ------------------------------------------------------------------ C14: access-token validation fails closed
 //@ func validateToken
-//@ prop C14
+//@ prop C14 C12
 //@ ensures[valid-only-for-an-error-free-200-answer] result ==> called(Do) && ret(Error#0) == nil && ret(StatusCode#1) == 200 && accessToken != ""
 //@ ensures[request-error-is-invalid] called(Error#0) && ret(Error#0) != nil ==> !result
+
+// ------------------------------------------------------------------ C12 / C14: re-validation of a session by the providers without OIDC
+// verification is the answer of the validation endpoint for this session's access token, nothing else
+//@ func (*AzureProvider).ValidateSession
+//@ safety
+//@ prop C12 C14
+//@ ensures[valid-exactly-if-the-access-token-validates] called(validateToken) && result == ret(validateToken) && arg(validateToken, 1) == p
+//@     && arg(validateToken, 2) == old(s.AccessToken)
+
+//@ func (*DigitalOceanProvider).ValidateSession
+//@ safety
+//@ prop C12 C14
+//@ ensures[valid-exactly-if-the-access-token-validates] called(validateToken) && result == ret(validateToken) && arg(validateToken, 1) == p
+//@     && arg(validateToken, 2) == old(s.AccessToken)
+
+//@ func (*FacebookProvider).ValidateSession
+//@ safety
+//@ prop C12 C14
+//@ ensures[valid-exactly-if-the-access-token-validates] called(validateToken) && result == ret(validateToken) && arg(validateToken, 1) == p
+//@     && arg(validateToken, 2) == old(s.AccessToken)
+
+//@ func (*GitHubProvider).ValidateSession
+//@ safety
+//@ prop C12 C14
+//@ ensures[valid-exactly-if-the-access-token-validates] called(validateToken) && result == ret(validateToken) && arg(validateToken, 1) == p
+//@     && arg(validateToken, 2) == old(s.AccessToken)
+
+//@ func (*KeycloakProvider).ValidateSession
+//@ safety
+//@ prop C12 C14
+//@ ensures[valid-exactly-if-the-access-token-validates] called(validateToken) && result == ret(validateToken) && arg(validateToken, 1) == p
+//@     && arg(validateToken, 2) == old(s.AccessToken)
+
+//@ func (*LinkedInProvider).ValidateSession
+//@ safety
+//@ prop C12 C14
+//@ ensures[valid-exactly-if-the-access-token-validates] called(validateToken) && result == ret(validateToken) && arg(validateToken, 1) == p
+//@     && arg(validateToken, 2) == old(s.AccessToken)
+
+//@ func (*LoginGovProvider).ValidateSession
+//@ safety
+//@ prop C12 C14
+//@ ensures[valid-exactly-if-the-access-token-validates] called(validateToken) && result == ret(validateToken) && arg(validateToken, 1) == p
+//@     && arg(validateToken, 2) == old(s.AccessToken)
+
+//@ func (*NextcloudProvider).ValidateSession
+//@ safety
+//@ prop C12 C14
+//@ ensures[valid-exactly-if-the-access-token-validates] called(validateToken) && result == ret(validateToken) && arg(validateToken, 1) == p
+//@     && arg(validateToken, 2) == old(s.AccessToken)
+
+//@ func (*ProviderData).ValidateSession
+//@ safety
+//@ prop C12 C14
+//@ ensures[valid-exactly-if-the-access-token-validates] called(validateToken) && result == ret(validateToken) && arg(validateToken, 1) == p
+//@     && arg(validateToken, 2) == old(s.AccessToken)
 
 // ------------------------------------------------------------------ C04: the verifier is built from this provider's options
 //@ func newProviderDataFromConfig
